@@ -304,7 +304,7 @@ class LogicallyPartitioned(meta.Partitioned):
 
   def to_nnx_metadata(self) -> dict[str, Any]:
     """Return a dict of metadata that can translate into an `nnx.Variable`."""
-    metadata = vars(self)
+    metadata = dict(vars(self))  # copy: vars() is the instance's own __dict__
     metadata['sharding'] = metadata.pop('names')
     metadata['sharding_rules'] = metadata.pop('rules')
     return metadata
